@@ -24,7 +24,7 @@ EXTENDS Terms
 Ops == {"Select", "Where"}
 Params == {"x", "y"}
 Breaks == {"none", "dot", "paren", "body", "close", "all"}
-Decos == {"none", "str", "cmt", "fstr"}     \* fstr: an f-string whose literal part is one unbalanced bracket
+Decos == {"none", "str", "cmt", "fstr", "cline"}     \* cline: a comment-only line between "(" and the lambda (when the call breaks there)     \* fstr: an f-string whose literal part is one unbalanced bracket
 \* defline: the enclosing function is a one-line def with the statement on the SAME line (def q(ds): return ds.Select(lambda ..))
 Wraps == {"fn", "if", "method", "comp", "cond", "nested", "with", "defline"}
 Extras == {"none", "before_same", "before_other", "after_same"}
